@@ -1,0 +1,11 @@
+//go:build verif
+
+// Contracts for package vm (assumed frames of the per-transaction bookkeeping used by the ABCI wrappers).
+// Comment-only file, read by /verif/govc.
+
+package vm
+
+//@ assume func (*CommitStateDB).Finality
+//@   modifies *s
+//@ assume func (*CommitStateDB).Prepare
+//@   modifies *s
